@@ -278,6 +278,11 @@ def check_unlock(rep, u, fn, enc):
                     barriers.append((b, i, n))
             elif n["k"] == "asg":
                 l = strip_casts(n["l"])
+                if l is not None and l["k"] == "un" and l.get("op") == "*":
+                    # `volatile pint *spin = &spinlock->spin; *spin = 0;`
+                    t_ = fn.resolve(l["e"])
+                    if t_ is not None and t_["k"] == "un" and t_.get("op") == "&":
+                        l = strip_casts(t_["e"])
                 if l is not None and l["k"] == "member" and root_var(l) == (fn.param_names() or [None])[0]:
                     stores.append(("plain", b, i, n))
     if len(stores) != 1:
